@@ -300,9 +300,11 @@ class SymObject:
 
 
 class Interp:
-    def __init__(self, cls_node: ast.ClassDef | None, module: ast.Module, self_attrs: dict | None = None,
+    def __init__(self, cls_node, module: ast.Module, self_attrs: dict | None = None,
                  max_steps: int = 200000):
-        self.cls = cls_node
+        # `cls_node` may be one class or a list of classes in method-resolution order
+        self.mro = cls_node if isinstance(cls_node, list) else ([cls_node] if cls_node else [])
+        self.cls = self.mro[0] if self.mro else None
         self.module = module
         self.self_obj = SymObject(self_attrs or {})
         self.steps = 0
@@ -311,9 +313,12 @@ class Interp:
     # ---- public
     def call_method(self, name: str, args: list):
         fn_node = None
-        for n in (self.cls.body if self.cls else self.module.body):
-            if isinstance(n, ast.FunctionDef) and n.name == name:
-                fn_node = n
+        for scope in ([c.body for c in self.mro] if self.mro else [self.module.body]):
+            for n in scope:
+                if isinstance(n, ast.FunctionDef) and n.name == name:
+                    fn_node = n
+            if fn_node is not None:
+                break
         if fn_node is None:
             raise Unavailable(f"method {name} not found")
         params = [a.arg for a in fn_node.args.args]
@@ -515,6 +520,19 @@ class Interp:
             raise Unavailable(f"attribute {ast.unparse(node)}")
         if isinstance(node, ast.Call):
             return self.call(node, env)
+        if isinstance(node, ast.ListComp):
+            if len(node.generators) != 1 or node.generators[0].ifs:
+                raise Unavailable("list comprehension shape")
+            g = node.generators[0]
+            it = self.expr(g.iter, env)
+            if isinstance(it, Arr):
+                it = it.data
+            out = []
+            for x in it:
+                env2 = dict(env)
+                self.assign(g.target, x, env2)
+                out.append(self.expr(node.elt, env2))
+            return out
         if isinstance(node, ast.IfExp):
             t = self.expr(node.test, env)
             if isinstance(t, B):
